@@ -187,6 +187,10 @@ func (f *ruleFactory) createExecutePipeline(
 					"an authenticator is defined after some other non authenticator type")
 			}
 
+			if err := checkMechanismReference(id, pipelineStep["config"]); err != nil {
+				return nil, nil, nil, err
+			}
+
 			authenticator, err := f.hf.CreateAuthenticator(version, id.(string), getConfig(pipelineStep["config"]))
 			if err != nil {
 				return nil, nil, nil, err
@@ -243,6 +247,10 @@ func (f *ruleFactory) createOnErrorPipeline(
 	for _, ehStep := range ehConfigs {
 		id, found := ehStep["error_handler"]
 		if found {
+			if err := checkMechanismReference(id, ehStep["config"]); err != nil {
+				return nil, err
+			}
+
 			conf := getConfig(ehStep["config"])
 
 			condition, err := getExecutionCondition(ehStep["if"])
@@ -333,6 +341,10 @@ func createHandler[T subjectHandler](
 		return nil, err
 	}
 
+	if err := checkMechanismReference(id, configMap["config"]); err != nil {
+		return nil, err
+	}
+
 	condition, err := getExecutionCondition(configMap["if"])
 	if err != nil {
 		return nil, err
@@ -344,6 +356,26 @@ func createHandler[T subjectHandler](
 	}
 
 	return &conditionalSubjectHandler{h: handler, c: condition}, nil
+}
+
+// checkMechanismReference ensures the id of the referenced mechanism and its (optional) rule specific
+// config are of the expected types. Rule sets are not validated against a schema, so anything can be present.
+func checkMechanismReference(id any, conf any) error {
+	if _, ok := id.(string); !ok {
+		return errorchain.NewWithMessagef(heimdall.ErrConfiguration,
+			"unexpected type '%T' for the id of the referenced mechanism", id)
+	}
+
+	if conf == nil {
+		return nil
+	}
+
+	if _, ok := conf.(map[string]any); !ok {
+		return errorchain.NewWithMessagef(heimdall.ErrConfiguration,
+			"unexpected type '%T' for the config of the referenced mechanism", conf)
+	}
+
+	return nil
 }
 
 func getConfig(conf any) config.MechanismConfig {
